@@ -407,6 +407,14 @@ func c14Run(tier string, seed int64, idx int) *core.Result {
 		}
 		st, snap := settle(tier, func() bool { return w.Left() == 0 })
 		gates.Open(lateGate)
+		if topo == "proxy" && h.Hits()["proxy.drop"] > 0 {
+			// the proxy dropped an envelope on its full 16-slot buffer (the known finding of C16): a
+			// call that waits for the lost envelope, or a registration whose reset was the casualty,
+			// is that finding's consequence, not a resource leak of client or server. The history
+			// ends here; what it showed up to this round stands.
+			res.Stat("proxy_histories_ended_by_drop_on_full", 1)
+			break
+		}
 		if st == "stuck" {
 			res.ViolateD("rpc-never-returns", map[string]any{"goroutines": goatParked(snap)}, "round %d: an RPC did not return", round)
 			break
@@ -624,7 +632,7 @@ func init() {
 	core.Register(&core.Prop{
 		ID:       "C14",
 		Level:    "exploration",
-		Rule:     "each case is one long history on ONE connection: rounds of 1..32 concurrent RPCs with outcomes drawn from {unary ok/error/cancel/deadline, stream ok/error/cancel/deadline/server-reset/early-return/cancel-with-responses-unread-and-never-touched-again/send of an unencodable message with a live context/unary call made after its deadline had passed} x 3 stream kinds, plus (every 4th round) opens whose transport write fails and a stream whose send fails once in the transport write; after every round the driver waits for a provably final state and samples client registry size, server stream registry size, the server's table of tracked unary handlers and the number of goroutines with goat frames against the idle level. evaluations = RPCs executed; every 10th case runs its history through a proxy (at most 4 RPCs at a time); every 10th case is instead 8 library-aborted streams (unencodable message, caller context alive) in the interleaving where the aborting goroutine is held at a hook between unregistering the stream and cancelling its context until the read loop has finished; every 10th case is instead a history against a SCRIPTED server on one connection, alternating {caller cancelled / deadline fired while its send is blocked by transport back-pressure with m in 3..6 responses unread} and {first response undecodable, caller stops without cancelling, m-1 more follow}, each followed by a unary probe, sampled the same way. a case is non-trivial when all 14 outcome classes occurred in its history; distinct = distinct (parameters, seed index).",
+		Rule:     "each case is one long history on ONE connection: rounds of 1..32 concurrent RPCs with outcomes drawn from {unary ok/error/cancel/deadline, stream ok/error/cancel/deadline/server-reset/early-return/cancel-with-responses-unread-and-never-touched-again/send of an unencodable message with a live context/unary call made after its deadline had passed} x 3 stream kinds, plus (every 4th round) opens whose transport write fails and a stream whose send fails once in the transport write; after every round the driver waits for a provably final state and samples client registry size, server stream registry size, the server's table of tracked unary handlers and the number of goroutines with goat frames against the idle level. evaluations = RPCs executed; every 10th case runs its history through a proxy (at most 4 RPCs at a time; the history ends at the first envelope the proxy drops on its full buffer - C16's known finding - instead of judging what follows from the loss); every 10th case is instead 8 library-aborted streams (unencodable message, caller context alive) in the interleaving where the aborting goroutine is held at a hook between unregistering the stream and cancelling its context until the read loop has finished; every 10th case is instead a history against a SCRIPTED server on one connection, alternating {caller cancelled / deadline fired while its send is blocked by transport back-pressure with m in 3..6 responses unread; in half of these rounds the blocked transport write notices the end of its context only after the stream's read loop has started to end the stream} and {first response undecodable, caller stops without cancelling, m-1 more follow}, each followed by a unary probe, sampled the same way. a case is non-trivial when all 14 outcome classes occurred in its history; distinct = distinct (parameters, seed index).",
 		Plan:     func(tier string, seed int64) int { return tierN(tier, 80, 640) },
 		Run:      c14Run,
 		MaxStats: []string{"idle_goat_goroutines"},
